@@ -312,7 +312,14 @@ Definition run_txttext (args : list (list byte)) : list byte :=
   | [Some s] =>
     if negb (valid_utf8 s) then s2b "BADCASE" else
     match txt_of_text s with
-    | Ok strs => unwords (nat_tok (List.length strs) :: map bytes_to_hex strs ++ [s2b "|"; out_line (text_of_txt strs) bytes_to_hex])
+    | Ok strs =>
+      (* the same TXT inside a packet: the plain writer takes RDLENGTH from TXT::len(), the compressed one measures it *)
+      let p := {| hdr := new_query 1; popt := None; qs := []; nss := []; adds := [];
+                  ans := [{| rname := [s2b "t"]; rclass := IN; rttl := 60; rcf := false;
+                             rdata_of := RD M_TXT [V_items (map (fun x : list byte => (0, x)) strs)] |}] |} in
+      unwords (nat_tok (List.length strs) :: map bytes_to_hex strs ++
+               [s2b "|"; out_line (text_of_txt strs) bytes_to_hex; s2b "|"; out_line (write_packet p) bytes_to_hex;
+                s2b "|"; out_line (write_packet_compressed p) bytes_to_hex])
     | _ => s2b "ERR"
     end
   | _ => s2b "BADCASE"
